@@ -110,6 +110,8 @@ pub async fn accept_loop<F>(
         })
         .await
         else {
+            #[cfg(feature = "verif_hooks")]
+            crate::verif::emit("AccRevokedInWait", 0, 0);
             return;
         };
         if permit.is_revoked() {
